@@ -315,6 +315,46 @@ func (x *fx) contractCall(fc *FuncContract, key string, names []string, ptypes [
 			post.vars["result"] = TV{T: t, Ty: rt}
 		}
 	}
+	if fc.Logged {
+		nk := "n:" + key
+		x.cur.ghost[nk] = e.define("ncalls", "Int", fmt.Sprintf("(+ %s 1)", x.ghostGet(x.cur, nk, "Int")))
+		for i := 0; i < results.Len() && i < len(rnames); i++ {
+			gk := "ret:" + key + ":" + rnames[i]
+			e.famSort["ghost:"+gk] = e.S.sortOf(results.At(i).Type())
+			e.ghostTy[gk] = results.At(i).Type()
+			x.cur.ghost[gk] = out[i]
+		}
+		for i, n := range names {
+			if i < len(args) && i < len(ptypes) {
+				gk := "arg:" + key + ":" + n
+				e.famSort["ghost:"+gk] = e.S.sortOf(ptypes[i])
+				e.ghostTy[gk] = ptypes[i]
+				x.cur.ghost[gk] = args[i]
+			}
+		}
+	}
+	logSnap := func() {}
+	if fc.Logged {
+		if _, have := x.cur.ghost["fret:"+key+":#"]; !have {
+			x.cur.ghost["fret:"+key+":#"] = "1"
+			e.famSort["ghost:fret:"+key+":#"] = "Int"
+			for i := 0; i < results.Len() && i < len(rnames); i++ {
+				gk := "fret:" + key + ":" + rnames[i]
+				e.famSort["ghost:"+gk] = e.S.sortOf(results.At(i).Type())
+				e.ghostTy[gk] = results.At(i).Type()
+				x.cur.ghost[gk] = out[i]
+			}
+			logSnap = func() {
+				sn := x.cur.clone()
+				sn.snaps = nil
+				if x.cur.snaps == nil {
+					x.cur.snaps = map[string]*State{}
+				}
+				x.cur.snaps[key] = sn
+			}
+		}
+	}
+	defer logSnap()
 	for _, c := range fc.Ensures {
 		if c.Profile != "" && c.Profile != e.profile {
 			continue
@@ -324,7 +364,8 @@ func (x *fx) contractCall(fc *FuncContract, key string, names []string, ptypes [
 		}
 		tv, err := post.eval(c.Expr)
 		if err != nil {
-			e.bindingError(key, c, err)
+			// a clause about the callee's internal call log cannot be used by a caller
+			e.note("clause of " + key + " not usable at call sites: " + err.Error())
 			continue
 		}
 		e.assume(implies(x.curReach, tv.T))
@@ -510,4 +551,19 @@ func famOfValue(tv TV) string {
 		return famElem(u.Elem())
 	}
 	return ""
+}
+
+// ghostGet reads a ghost variable, declaring its (unknown) entry value on first use.
+func (x *fx) ghostGet(st *State, key, sort string) Term {
+	if t, ok := st.ghost[key]; ok {
+		return t
+	}
+	e := x.e
+	if t, ok := e.ghostEntry[key]; ok {
+		return t
+	}
+	e.famSort["ghost:"+key] = sort
+	t := e.declare("ghost:"+key, sort)
+	e.ghostEntry[key] = t
+	return t
 }
